@@ -75,6 +75,51 @@ macro_rules! impl_num {
         }
     };
 }
+impl Num for u32 {
+    const TY: &'static str = "u32";
+    fn f(self) -> f64 {
+        self as f64
+    }
+    fn of(x: f64) -> Self {
+        x as u32
+    }
+    fn add(self, o: Self) -> Self {
+        self + o
+    }
+    fn sub(self, o: Self) -> Self {
+        self - o
+    }
+    fn mul(self, o: Self) -> Self {
+        self * o
+    }
+    fn div(self, o: Self) -> Self {
+        self / o
+    }
+    fn neg(self) -> Self {
+        unreachable!("no negation for unsigned")
+    }
+    fn iadd(i: Interval<Self>, k: Self) -> Interval<Self> {
+        i + k
+    }
+    fn isub(i: Interval<Self>, k: Self) -> Interval<Self> {
+        i - k
+    }
+    fn imul(i: Interval<Self>, k: Self) -> Interval<Self> {
+        i * k
+    }
+    fn idiv(i: Interval<Self>, k: Self) -> Interval<Self> {
+        i / k
+    }
+    fn ineg(_i: Interval<Self>) -> Interval<Self> {
+        unreachable!("no negation for unsigned")
+    }
+    fn iiadd(a: Interval<Self>, b: Interval<Self>) -> Interval<Self> {
+        a + b
+    }
+    fn iisub(a: Interval<Self>, b: Interval<Self>) -> Interval<Self> {
+        a - b
+    }
+}
 impl_num!(i32, "i32");
 impl_num!(i64, "i64");
 impl_num!(f64, "f64");
@@ -608,9 +653,63 @@ fn relative_sweep(run: &Arc<Run>) {
     });
 }
 
+/// unsigned sweep: bounds 0..8; every operation whose exact result is non-negative
+fn unsigned_sweep(run: &Arc<Run>) {
+    if run.replay_case.as_ref().map(|c| c["ty"] != "u32").unwrap_or(false) {
+        return;
+    }
+    let mut ivs: Vec<(u8, f64, f64)> = vec![];
+    for a in 0..=8 {
+        for b in a..=8 {
+            ivs.push((0, a as f64, b as f64));
+        }
+        ivs.push((1, a as f64, 0.0));
+        ivs.push((2, a as f64, 0.0));
+    }
+    let lattice: Vec<f64> = (0..=24).map(|x| x as f64).collect();
+    let n = ivs.len() as u64;
+    if let Some(case) = &run.replay_case {
+        let mut l = run.local();
+        let iv = |v: &Value| mk::<u32>(v[0].as_u64().unwrap() as u8, v[1].as_f64().unwrap(), v[2].as_f64().unwrap());
+        if case["what"] == "pair" {
+            judge_pair::<u32>(case["sub"].as_bool().unwrap(), iv(&case["a"]), iv(&case["b"]), &lattice, &|| case.clone(), &mut l);
+        } else if case["what"] == "scalar" {
+            let op = [Op::Add, Op::Sub, Op::Mul, Op::Div][case["op"].as_u64().unwrap() as usize];
+            judge_scalar::<u32>(op, iv(&case["a"]), case["k"].as_f64().unwrap() as u32, &lattice, &|| case.clone(), &mut l);
+        }
+        run.absorb(l);
+        return;
+    }
+    run.par(n * n, |i, l| {
+        let (ka, a1, a2) = ivs[(i / n) as usize];
+        let (kb, b1, b2) = ivs[(i % n) as usize];
+        // addition: always representable. subtraction: only when every member of A is >= every member of B
+        judge_pair::<u32>(false, mk::<u32>(ka, a1, a2), mk::<u32>(kb, b1, b2), &lattice, &|| json!({"ty": "u32", "what": "pair", "sub": false, "a": [ka, a1, a2], "b": [kb, b1, b2]}), l);
+        let b_hi = if kb == 0 { Some(b2) } else if kb == 2 { Some(b1) } else { None };
+        let a_lo = if ka == 2 { None } else { Some(a1) };
+        if let (Some(alo), Some(bhi)) = (a_lo, b_hi) {
+            if alo >= bhi && kb != 2 {
+                l.count("unsigned subtraction judged");
+                judge_pair::<u32>(true, mk::<u32>(ka, a1, a2), mk::<u32>(kb, b1, b2), &lattice, &|| json!({"ty": "u32", "what": "pair", "sub": true, "a": [ka, a1, a2], "b": [kb, b1, b2]}), l);
+            }
+        }
+    });
+    let ops = [Op::Add, Op::Sub, Op::Mul, Op::Div];
+    run.par(n * 4 * 5, |i, l| {
+        let (kind, a, b) = ivs[(i % n) as usize];
+        let oi = ((i / n) % 4) as usize;
+        let k = (i / (4 * n)) as u32; // 0..4
+        if (ops[oi] == Op::Div && k == 0) || (ops[oi] == Op::Sub && (kind == 2 || (a as u32) < k)) {
+            return;
+        }
+        judge_scalar::<u32>(ops[oi], mk::<u32>(kind, a, b), k, &lattice, &|| json!({"ty": "u32", "what": "scalar", "op": oi, "a": [kind, a, b], "k": k}), l);
+    });
+}
+
 pub fn run(run: &Arc<Run>) {
+    unsigned_sweep(run);
     run.set_rule(
-        "exhaustive over the box: bounds -4..4 (i32, i64: step 1; f64, f32: step 0.5, all operations exact), all three kinds, scalars -3..3 (non-zero powers of two for float division, non-zero integers for integer division), \
+        "exhaustive over the box: bounds -4..4 (i32, i64: step 1; f64, f32: step 0.5, all operations exact; u32: bounds 0..8 and only operations whose exact result is non-negative), all three kinds, scalars -3..3 (non-zero powers of two for float division, non-zero integers for integer division), \
          all kind pairs for interval+interval / interval-interval (the two documented panics must be panics), relative_to over non-negative self x strictly positive reference (dyadic grid + seeded random). \
          Each result is judged by brute force over the lattice -12..12 (members of A (and B) must map into the result; each finite result bound must be attained; unbounded exactly where the image is) and against the end-point image model. \
          distinct = distinct (type, operator, operands) fingerprints; all are non-trivial.",
@@ -642,6 +741,7 @@ pub fn run(run: &Arc<Run>) {
             req.push(format!("{}:neg:{}:-", ty, k));
         }
     }
+    req.push("unsigned subtraction judged".into());
     req.push("documented-panic(incompatible one-sided kinds)".into());
     req.push("documented-panic(same-direction reference)".into());
     let r: Vec<&str> = req.iter().map(|s| s.as_str()).collect();
